@@ -2,7 +2,8 @@
 """C12: latest-run addressing and bounded retention over run histories.
 
 Real histories of `monorail run` (different commands / targets / outputs / failures per run) with
-max_retained_runs in {1,2,3,5}; after every run `result show`, `log show`, `log show --id N` for
+max_retained_runs in {1,2,3,5,10,11}, with and without a checkpoint (change-detected and
+empty runs); after every run `result show`, `log show`, `log show --id N` for
 every N and the run directory listing are compared with the Lean model of the store."""
 import sys
 import time
@@ -17,13 +18,20 @@ COMMANDS = ["build", "test", "lint"]
 
 def history(seed, max_runs, length, model, rep):
     rng = scen.Rng(seed)
-    repo = scen.Repo(TARGETS, max_retained_runs=max_runs, git=False)
+    use_ck = seed % 2 == 0     # half of the histories run with a checkpoint: runs without -t are change-detected
+    repo = scen.Repo(TARGETS, max_retained_runs=max_runs, git=use_ck)
     case = {"seed": seed, "max": max_runs, "length": length}
     try:
         for t in TARGETS:
             for c in COMMANDS:
                 if not (t["path"] == "web" and c == "lint"):   # one undefined pair
                     repo.install(t["path"], c)
+        if use_ck:
+            repo.commit_all()
+            rc, j, out, err = repo.mono("checkpoint", "update")
+            if rc != 0:
+                rep.disagree({"kind": "checkpoint update failed", "case": case, "stderr": err[-300:]})
+                return
         runs = []      # model runs: doc id = run number, logs keyed by small ints
         expect = []    # per run: (doc canonical, {key: content})
         keyids = {}
@@ -35,6 +43,23 @@ def history(seed, max_runs, length, model, rep):
             plan = {}
             logs = {}
             will = named if named else [t["path"] for t in TARGETS]
+            if use_ck and not named:
+                # change-detected run: nothing changed since the checkpoint (an empty run, which is
+                # still a completed run), or some targets edited just now
+                if rng.chance(1, 2):
+                    for t in sorted(set(rng.pick(TARGETS)["path"] for _ in range(rng.range(1, 2)))):
+                        with open(repo.dir + "/" + t + "/file.txt", "a") as f:
+                            f.write("edit before run %d\n" % n)
+                else:
+                    repo.git("checkout", "-q", "--", ".")
+                rca, ja, _, erra = repo.mono("analyze")
+                if rca != 0 or ja is None:
+                    rep.disagree({"kind": "analyze failed", "case": case, "stderr": erra[-300:]})
+                    return
+                will = ja.get("targets", [])
+                rep.count("change_detected_runs")
+                if not will:
+                    rep.count("empty_runs")
             for c in cmds:
                 for t in will:
                     if t == "web" and c == "lint":
@@ -149,11 +174,12 @@ def main():
     if args["budget"] > 0:
         n = (40 if args["tier"] == "thorough" else 8) * args["budget"]
         for i in range(n):
-            mx = [1, 2, 3, 5][i % 4]
+            mx = [1, 2, 3, 5, 10, 2, 3, 11][i % 8]     # 10 is the default limit: the pointer gains a digit
             ln = rng.range(2 * mx + 2, 3 * mx + 4) if args["tier"] == "quick" else rng.range(3 * mx + 2, 6 * mx + 6)
+            if mx >= 10:
+                ln = rng.range(mx + 2, mx + 6) if args["tier"] == "quick" else rng.range(2 * mx + 2, 3 * mx)
             cases.append({"seed": rng.next(), "max": mx, "length": min(ln, 40)})
-    with ThreadPoolExecutor(max_workers=8) as ex:
-        list(ex.map(lambda c: history(c["seed"], c["max"], c["length"], model, rep), cases))
+    scen.run_cases(lambda c: history(c["seed"], c["max"], c["length"], model, rep), cases, rep, 8)
     scen.finish(args, rep, t0, model)
 
 
